@@ -609,6 +609,10 @@ func optVectors() []optVec {
 		{"boundary", tbin.Struct(f(1, tbin.I64v(-9223372036854775808)), f(3, tbin.Double(5e-324)), f(4, tbin.Bin([]byte("text \"q\" é"))), f(2, tbin.I32v(2147483647)), f(10, tbin.Byte(127)), f(8, tbin.List(tbin.I64, tbin.I64v(9223372036854775807))))},
 		{"jsconv-i64", tbin.Struct(f(6, tbin.I64v(1234567890123)), f(2, tbin.I32v(4)))},
 		{"jsconv-i64", tbin.Struct(f(2, tbin.I32v(4)), f(6, tbin.I64v(-9223372036854775808)), f(5, tbin.Str("after")))},
+		// integers no float64 holds exactly (a converter that goes through float64 rounds them)
+		{"jsconv-i64", tbin.Struct(f(6, tbin.I64v(9007199254740993)), f(2, tbin.I32v(4)))},
+		{"jsconv-i64", tbin.Struct(f(6, tbin.I64v(9223372036854775807)))},
+		{"jsconv-i64", tbin.Struct(f(2, tbin.I32v(4)), f(6, tbin.I64v(-9007199254740993)))},
 		{"jsconv-string", tbin.Struct(f(7, tbin.Str("12.50")), f(1, tbin.I64v(1)))},
 		{"jsconv-string", tbin.Struct(f(7, tbin.Str("not a number \"q\"")))},
 		{"jsconv-i32", tbin.Struct(f(11, tbin.I32v(-77)), f(1, tbin.I64v(1)))},
